@@ -13,7 +13,8 @@ for n in names:
     assert subprocess.run(["git", "-C", "/repo", "status", "--porcelain"], capture_output=True, text=True).stdout.strip() == "", "/repo dirty"
     subprocess.run(["git", "-C", "/repo", "apply", os.path.join(d, "patch.diff")], check=True)
     try:
-        p = subprocess.run([os.path.join(V, "check"), pid, "quick"], cwd=V, capture_output=True, text=True)
+        env = dict(os.environ, VERIF_EVIDENCE_DIR=os.path.join(V, ".build", "seeded-evidence"))
+        p = subprocess.run([os.path.join(V, "check"), pid, "quick"], cwd=V, capture_output=True, text=True, env=env)
     finally:
         subprocess.run(["git", "-C", "/repo", "checkout", "--", "."], check=True)
         subprocess.run(["git", "-C", "/repo", "clean", "-fdq"], check=True)
